@@ -117,7 +117,7 @@ pub fn run(ctx: &Ctx) -> i32 {
     let _ = super::variant::measured();
     let progs = programs09();
     let alphabets: Vec<Vec<Action>> = progs.iter().map(alphabet).collect();
-    let depth = ctx.tier.pick(4, 6);
+    let depth = ctx.tier.pick(4, 7);
     let thorough = ctx.tier == crate::report::Tier::Thorough;
     // plain runs (real VM, no debugger), in both output modes
     let plains: Vec<(Option<Obs>, Option<Obs>)> = progs.iter().map(|p| (plain_run(p, true), plain_run(p, false))).collect();
